@@ -44,6 +44,12 @@ STD_ASSUMPTIONS = {
              'with the contracts "encode_to appends enc(self)", "decode is sound, canonical and complete w.r.t. denc", and the encodings of u8, u32 (LE), Compact<u32> '
              '(1/2/4/5-byte classes), String (compact byte length + UTF-8, utf8 uninterpreted), Option, Vec, PhantomData, &T. The codec derive is trusted to emit what rustc '
              'expands (the expansion itself is taken from rustc on every run).',
+    'SERDE': 'ASSUMED model of the dependencies serde / serde_json (declaration-only stand-in module `_serde` in the serde unit): traits Serializer / '
+             'SerializeStruct / Serialize with the contracts "a serializer hands back what represents exactly the JSON value it was fed" (uninterpreted '
+             'relation produced(ok, j) keyed by the Ok type), the Serialize impls of u8, u32, String, Option, Vec, &T, and serde_json\'s documented mapping of the '
+             'serde data model to JSON (struct -> object with the serialized fields in order and skipped fields absent, newtype variant -> {"variant": value}, '
+             'unit variant -> "variant", seq -> array, None -> null). The `len` argument of serialize_struct is not constrained. The serde derive is trusted to '
+             'emit what rustc expands (the expansion is taken from rustc with feature serde on every run).',
     'PARTIAL': 'termination of Registry::register_type is NOT proved (depends on finiteness of the Rust type graph); the registry recursion carries '
                'exec_allows_no_decreases_clause, so the registry units are partial-correctness proofs; absence of stack overflow is not proved anywhere',
     'MODULAR': 'the mutual recursion register_type <-> into_portable is cut modularly into two Verus units (registry / registry_impls) sharing one contract text, '
@@ -180,6 +186,52 @@ PROPS = {
         kani_quick=['enc_symbol_compact', 'enc_def_primitive', 'enc_def_array'],
         kani_thorough=['enc_symbol_compact', 'enc_def_primitive', 'enc_def_sequence', 'enc_def_compact', 'enc_def_array', 'enc_def_tuple', 'enc_field_a', 'enc_def_bitsequence'],
         assumptions=['CODEC', 'VSTD', 'TOOLS'],
+    ),
+    'C15': dict(
+        title='Produced metadata does not depend on the enabled crate features',
+        level='other',
+        technique='Verus: the SAME contract text (config-independent: strings by their characters, ids by table position, bytes by the layout function enc) is discharged on the '
+                  'functions extracted under each feature configuration (no-std, no-std+decode, std, everything), with rustc expanding the macros per configuration; '
+                  'plus a bounded cross-build comparison of the encoded bytes',
+        level_text='MIXED. Proved per configuration K in {(none) = no_std, decode, std, std+serde+decode+bit-vec+schema} and for build also K+docs: every function on the path from type '
+                   'definitions to bytes - all builders and constructors (unit build), Interner and Registry operations (interner, registry), the 14 into_portable conversions '
+                   '(registry_impls), From<Registry> for PortableRegistry (portable) and the 17 derive-generated encode_to functions (codec) - satisfies the same contracts as in '
+                   'the default configuration. Those contracts determine the output as a function that does not mention the configuration: builders return exactly what they were given '
+                   '(docs only where the docs feature or docs_always says so - the single feature-dependent clause, under //@ if-feature docs), the portable image is determined by the '
+                   'source definition and the table (strings by characters: the portable string type is String or &\'static str depending on std/decode and both satisfy the same '
+                   'clauses; ids by first-registration order), and encode_to appends enc(value), where enc of String and of str is the same function of the characters. '
+                   'NOT machine-checked: the final step from "same functional contracts in every configuration" to "byte-identical across builds" is an argument over the contract text, '
+                   'since a relation between two builds of a crate is not expressible in one verification unit; the derive macro (scale-info-derive, its docs feature) is not under contract. '
+                   'Bounded: one program registering 19 fixed types (derived and built-in) is built under 8 (thorough: 40) feature sets and the printed encodings are compared; with docs the '
+                   'comparison is made after emptying every documentation list.',
+        level_note='Assumed: CODEC (the dependency encodes String and str alike: compact byte length + UTF-8), A6 (String: From<&str> preserves the characters; T: From<T> is the identity), '
+                   'and the assumptions of C01/C02/C06/C17 for the units reused here. Feature-dependent derives (Decode, Serialize, JsonSchema) do not touch the Encode path; the expansion is '
+                   'nevertheless taken from rustc under each configuration.',
+        verus=[('build', ['*']), ('interner', INTERNER_ITEMS), ('registry', REGISTRY_ITEMS), ('registry_impls', IMPL_ITEMS),
+               ('portable', ['From<Registry> for PortableRegistry::from', 'Registry::types']), ('codec', ['crate::scale::Encode for *::encode_to'])],
+        verus_configs={u: [('-nostd', ()), ('-decode', ('decode',)), ('-std', ('std',)), ('-all', ('std', 'serde', 'decode', 'bit-vec', 'schema'))] +
+                          ([('-nostd-docs', ('docs',)), ('-all-docs', ('std', 'serde', 'decode', 'bit-vec', 'schema', 'docs'))] if u == 'build' else [])
+                       for u in ('build', 'interner', 'registry', 'registry_impls', 'portable', 'codec')},
+        kani_quick=[], kani_thorough=[],
+        assumptions=['A1', 'A2', 'A4', 'A5', 'A6', 'A7', 'A9', 'CODEC', 'PARTIAL', 'MODULAR', 'VSTD', 'TOOLS'],
+    ),
+    'C08': dict(
+        title='JSON form has the documented shape and round-trips',
+        level='other',
+        technique='Verus: postcondition "the serializer is fed exactly json(self)" on the 17 serialize functions the serde derive generates for this crate (shape half, all registries); '
+                  'deserialisation half by bounded native round trips only',
+        level_text='MIXED. Proved (Verus, for every PortableRegistry value and every serializer that follows the assumed serde contracts): each derive-generated `serialize` function of '
+                   'UntrackedSymbol, PortableRegistry, PortableType, Type, Path, TypeParameter, TypeDef, TypeDefPrimitive and the eight definition structs, Variant and Field feeds the '
+                   'serializer exactly the JSON value `json(self)`, and `json` is written here from the statement: keys types / id / type / path / params / def / docs / name / typeName / '
+                   'index / fields / variants / len (and bit_store_type / bit_order_type), lower-case definition tags and primitive names, ids and paths transparent, empty path / params / '
+                   'fields / variants / docs and absent names omitted. NOT proved, bounded only: deserialising that JSON yields an equal registry (the derive-generated Deserialize visitors '
+                   'loop over map keys; they are not under contract) - checked natively on about 110 enumerated registries through serde_json (from_str(to_string(r)) == r, '
+                   'from_value(to_value(r)) == r, agreement with the SCALE round trip), together with the concrete serde_json output against an independently built documented shape.',
+        level_note='Assumed: the model of serde / serde_json (assumption SERDE). The proof is about the data-model calls the generated code makes, not about serde_json\'s text writer. '
+                   'Path::is_empty (the skip predicate of `path`) is verified in the same unit.',
+        verus=[('serde', ['_serde::Serialize for *::serialize', 'Path<T>::is_empty'])],
+        kani_quick=[], kani_thorough=[],
+        assumptions=['SERDE', 'VSTD', 'TOOLS'],
     ),
     'C07': dict(
         title='SCALE round trip of a registry is lossless, exact and injective',
